@@ -660,6 +660,10 @@ class Bin:
 
     @staticmethod
     def reparse(f):
+        ctx = _CTX[0]
+        if ctx is not None and ctx.index % 4 == 1:
+            from vf.core import through_disk
+            return through_disk(ctx, f, pdbx.BinaryCIFFile, True, ".bcif", as_pathlib=ctx.index % 8 == 1)[0]
         bio = io.BytesIO()
         f.write(bio)
         bio.seek(0)
@@ -755,7 +759,11 @@ def text_roundtrip(ctx, model, style=0, observe=True):
     f = make(Text, model, 0, style)
     ctx.op("text_serialize")
     try:
-        if style % 3 == 1:
+        parsed_from_disk = None
+        if style % 3 == 1 and ctx.index % 2 == 1:
+            from vf.core import through_disk
+            parsed_from_disk, text = through_disk(ctx, f, pdbx.CIFFile, False, ".cif", as_pathlib=ctx.index % 4 == 1)
+        elif style % 3 == 1:
             sio = io.StringIO()
             f.write(sio)
             text = sio.getvalue()
@@ -770,7 +778,9 @@ def text_roundtrip(ctx, model, style=0, observe=True):
             return None
         ctx.fail("serialize_failed", "serialize() raised %s: %s" % (type(e).__name__, e))
     ctx.op("text_parse")
-    if style % 3 == 1:
+    if parsed_from_disk is not None:
+        parsed = parsed_from_disk
+    elif style % 3 == 1:
         parsed = pdbx.CIFFile.read(io.StringIO(text))
     else:
         parsed = pdbx.CIFFile.deserialize(text)
